@@ -1598,6 +1598,9 @@ class Interp:
             return model(self, *args, **kwargs)
         if isinstance(fn, type) and issubclass(fn, BaseException):
             return PyRaiseValue(fn, args)
+        if isinstance(fn, types.FunctionType) and fn.__name__ == "<lambda>" \
+                and fn.__code__.co_code == (lambda x: x).__code__.co_code and len(args) == 1 and not kwargs:
+            return args[0]       # an identity lambda returned by native code
         # dclab function or class -> contract / inline
         mod = getattr(fn, "__module__", None) or ""
         om = getattr(f.unit, "opaque_modules", ())
